@@ -53,7 +53,9 @@ def floors(tier):
     f = {"evaluations": 600, "nodes_compared": 3000, "numbers_compared": 400, "obs_sites_crosschecks": 1500,
          "obs_matrix_crosschecks": 1500, "operands": 1200, "factor_nonunit_operands": 900, "N=1": 30, "N=2": 80, "N=5": 60, "N=6": 60,
          "measure:overlap": 100, "measure:mpo": 70, "measure:mpo-sum": 30, "measure:mpo-pbc": 20, "measure:env-sum": 20,
-         "measure:on_bra": 8, "measure:charged-op:nonzero": 4, "zipper": 60, "zipper:pbc": 15, "compression:1site": 12,
+         "measure:on_bra": 8, "measure:charged-op:nonzero": 20, "measure:charged-op-nonvanishing": 20,
+         "measure:op-charge-on-flipped-boundary-leg:nonvanishing": 5, "measure:op-charge-on-flipped-last-leg:nonvanishing": 1,
+         "measure:op-charge-on-flipped-first-leg:nonvanishing": 1, "leaf:harness:charge-on-last-leg:nonzero": 40, "zipper": 60, "zipper:pbc": 15, "compression:1site": 12,
          "compression:2site": 12, "leaf:harness": 700, "leaf:random": 200, "leaf:product": 200, "leaf:from_tensor": 120,
          "from_tensor:balance": 35, "from_tensor:first": 35, "from_tensor:last": 35, "nonzero_charge_leaves": 400,
          "complex_leaves": 600, "addn_mixed_sign_or_phase": 25, "matmul_mode_meta": 20, "central:reverse": 4,
@@ -66,8 +68,9 @@ def floors(tier):
 
 # ------------------------------------------------------------------ type signatures of tree nodes
 
-def ts_leaf(kind, q):
-    return ("L", kind, tuple(q))
+def ts_leaf(kind, q, at="first"):
+    """Leaf type: kind, total charge and the boundary leg that carries it (default: the first one)."""
+    return ("L", kind, tuple(q)) if at == "first" else ("L", kind, tuple(q), at)
 
 
 def ts_kind(ts):
@@ -119,7 +122,7 @@ class Node:
     def shape(self):
         if self.op == "leaf":
             p = self.par
-            return ("leaf", p["src"], p["kind"], tuple(p["q"]), p["dtype"], p.get("factor"), p.get("canonize"))
+            return ("leaf", p["src"], p["kind"], tuple(p["q"]), p["dtype"], p.get("factor"), p.get("canonize"), p.get("at"))
         par = {k: v for k, v in self.par.items() if k in ("how", "n")}
         return (self.op, tuple(sorted(par.items())), tuple(k.shape() for k in self.kids))
 
@@ -179,6 +182,7 @@ class Env:
         self.sigparts = []
         self.stopped = False
         self.zero_ok = True
+        self.at_mode = None          # None: harness leaves carry the charge on the last leg now and then; else forced
         ctx.count(f"N={self.N}")
         ctx.count("space:" + loc.tag())
 
@@ -190,11 +194,15 @@ class Env:
             return zero
         return self.rng.choice(adm)
 
-    def leaf(self, kind, q=None, src=None):
+    def leaf(self, kind, q=None, src=None, at=None):
         rng = self.rng
         q = self.draw_q(kind) if q is None else tuple(q)
         if src is None:
             src = rng.choice(("harness", "harness", "harness", "random", "product", "from_tensor"))
+        if at is None:
+            at = self.at_mode or ("last" if (src == "harness" and rng.random() < 0.12) else "first")
+        if at == "last":
+            src = "harness"          # only harness chains can put the total charge on the last virtual leg
         if src == "random" and kind == "mpo" and q != G.zero(self.loc.sym):
             src = "harness"
         nlegs = self.N * (1 if kind == "mps" else 2)
@@ -202,11 +210,11 @@ class Env:
                                      or (self.loc.d ** (nlegs // self.N)) ** (self.N // 2) > 16):
             src = "harness"      # set_block is quadratic in the number of blocks; keep full tensors below ~256 blocks
         par = {"src": src, "kind": kind, "q": q, "dtype": rng.choice(("float64", "complex128")),
-               "factor": rng.choice((None, None, "pos", "canon-first", "canon-last")), "seed": rng.getrandbits(40)}
+               "factor": rng.choice((None, None, "pos", "canon-first", "canon-last")), "seed": rng.getrandbits(40), "at": at}
         if src == "from_tensor":
             par["canonize"] = rng.choice(("first", "last", "balance"))
             par["opts"] = rng.choice((None, None, {"tol": 1e-13}, {"tol": 1e-14, "D_total": 4096}))
-        return Node("leaf", par=par, ts=ts_leaf(kind, q))
+        return Node("leaf", par=par, ts=ts_leaf(kind, q, at))
 
     # ---- trees ------------------------------------------------------------
     def est_bond(self, node):
@@ -276,9 +284,9 @@ class Env:
         if op in ("conj", "reverse", "H", "T"):
             a = self._tree(kind, depth - 1, normal_only, q)
             return self.unary(op, a)
-        # matmul
-        a = self._tree("mpo", depth - 1, normal_only)
-        b = self._tree(kind, depth - 1, normal_only)
+        # matmul (a requested total charge is put on the right factor; the operator is then neutral)
+        a = self._tree("mpo", depth - 1, normal_only, None if q is None else G.zero(self.loc.sym))
+        b = self._tree(kind, depth - 1, normal_only, q)
         return self.matmul(a, b)
 
     def unary(self, f, a):
@@ -309,7 +317,7 @@ class Env:
         """A fresh tree with the same structural type (same signatures, same charges on the boundary legs)."""
         rng = self.rng
         if ts[0] == "L":
-            x = self.leaf(ts[1], ts[2])
+            x = self.leaf(ts[1], ts[2], at=ts[3] if len(ts) > 3 else "first")
         elif ts[0] == "M":
             a = self.partner(ts[1])
             b = self.partner(ts[2])
@@ -486,6 +494,9 @@ class Env:
                 par["bonds"] = y.get_bond_dimensions()
         if src == "harness":
             ch = R.gen_chain(rng, nprng, loc, N, kind, q=q, dtype=dtype, dmax=self.dmax)
+            if par.get("at") == "last":
+                ch = R.mirror_chain(ch)
+                ctx.count("leaf:harness:charge-on-last-leg" + (":nonzero" if q != G.zero(loc.sym) else ""))
             y, truth = ch.to_yastn(), ch.dense()
             par["bonds"] = ch.bond_desc()
         elif src == "product":
@@ -660,33 +671,68 @@ def fam_tree(E, idx):
 
 
 def fam_measure(E, idx):
-    """charged operators, periodic MPO, on_bra, Env sums, different-charge overlaps -- on leaves and shallow trees of normal type."""
+    """charged operators on every orientation of the boundary legs (conj / reverse_sites / H / T operands, total charge on the
+    first or on the last virtual leg), periodic MPO, on_bra, nested Env sums (also reversed / conjugated, with charged
+    operators), different-charge overlaps."""
     import yastn.tn.mps as mps
     rng, ctx, loc, N = E.rng, E.ctx, E.loc, E.N
     E.zero_ok = False
     if not E.allow_mpo:
         E.N = N = rng.randint(1, E.nmax_mpo)
         E.allow_mpo = True
-    which = rng.choice(("charged", "pbc", "pbc", "on_bra", "env_sum", "env_sum", "diff-charge"))
+    which = rng.choice(("charged", "charged", "charged", "pbc", "pbc", "on_bra", "env_sum", "env_sum", "diff-charge"))
     zero = G.zero(loc.sym)
+    E.at_mode = "first"
     if which == "charged":
-        kq = E.draw_q("mps")
-        oq = rng.choice(R.admissible_charges(loc, N, "mpo"))
-        bq = G.add(loc.sym, (kq, oq))
-        if bq not in R.admissible_charges(loc, N, "mps") or rng.random() < 0.1:
-            bq = E.draw_q("mps")
-        ket = E.eval(E.tree("mps", rng.choice((0, 1)), normal_only=True, q=kq))
-        op = E.eval(E.tree("mpo", rng.choice((0, 1)), normal_only=True, q=oq))
-        bra = E.eval(E.tree("mps", rng.choice((0, 1)), normal_only=True, q=bq))
-        exp = np.vdot(bra[1], op[1] @ ket[1])
-        got = guarded_mpo(E, lambda: mps.measure_mpo(bra[0], op[0], ket[0]), [op[0]])
-        number_check(E, "measure_mpo:charged-op", got, exp, bra[2] * op[2] * ket[2],
-                     f"measure_mpo with operator charge {oq}, ket {kq}, bra {bq}")
+        # <bra| op |ket> with an operator that changes the charge, on every orientation of the boundary legs:
+        # common flags c (conj) / r (reverse_sites) on all three operands, op alternatively as H (states plain) or T (states
+        # conjugated), total charges carried by the first or by the last virtual leg of the leaves
+        kind = "mps" if (rng.random() < 0.75 or loc.d ** N > 64) else "mpo"
+        E.at_mode = at = rng.choice(("first", "last"))
+        flags = {f for f in "cr" if rng.random() < 0.5}
+        alt = rng.random() < 0.33
+        kq = E.draw_q(kind)
+        nonzero = [t for t in R.admissible_charges(loc, N, "mpo") if t != zero]
+        turning = [t for t in nonzero if G.neg(loc.sym, t) != t]
+        oq = rng.choice(turning) if (turning and rng.random() < 0.7) else (rng.choice(nonzero) if (nonzero and rng.random() < 0.8) else zero)
+        ket = E.eval(E.wrap(E.tree(kind, rng.choice((0, 0, 1)), normal_only=True, q=kq), flags))
+        opn = E.tree("mpo", rng.choice((0, 0, 1)), normal_only=True, q=oq)
+        steps = [("T" if alt else "conj")] if "c" in flags else (["H"] if alt else [])
+        steps += ["reverse"] if "r" in flags else []
+        rng.shuffle(steps)
+        for f in steps:
+            opn = E.unary(f, opn)
+        op = E.eval(opn)
+        target = op[1] @ ket[1]
+        bq = support_charge(E, target, kind)
+        if bq is None or bq not in R.admissible_charges(loc, N, kind) or rng.random() < 0.06:
+            bq = E.draw_q(kind)
+        bra = E.eval(E.wrap(E.tree(kind, rng.choice((0, 0, 1)), normal_only=True, q=bq), flags))
+        exp = np.vdot(bra[1], target)
+        scale = bra[2] * op[2] * ket[2]
+        fn = mps.vdot if rng.random() < 0.3 else mps.measure_mpo
+        got = guarded_mpo(E, lambda: fn(bra[0], op[0], ket[0]), [op[0]])
+        tag = ("+".join(sorted(flags)) or "plain") + ("/op-" + ("T" if "c" in flags else "H") if alt else "")
+        number_check(E, "measure_mpo:charged-op" + (":reversed" if "r" in flags else ""), got, exp, scale,
+                     f"measure_mpo on {kind} states, operands {tag}, charge on the {at} leg; operator charge {oq}, ket {kq}, bra {bq}")
         ctx.count("measure:mpo")
         ctx.count("measure:charged-op" + (":nonzero" if oq != zero else ""))
-        if abs(exp) > 1e-9:
+        ctx.count("measure:charged-op:operands=" + tag)
+        ctx.count("measure:charged-op:charge-at-" + at)
+        if kind == "mpo":
+            ctx.count("measure:charged-op:mpo-states")
+        if abs(exp) > 1e-9 * scale:
             ctx.count("measure:charged-op-nonvanishing")
-        E.sig = ("charged", kq, oq, bq)
+            if oq != zero and "r" in flags:
+                ctx.count("measure:charged-op:reversed-nonzero-nonvanishing")
+            if oq != zero and at == "last":
+                ctx.count("measure:charged-op:at-last-nonzero-nonvanishing")
+            if oq != zero and "c" in flags:
+                ctx.count("measure:charged-op:conj-nonzero-nonvanishing")
+            for where in flipped_boundary_charge(E, op[0]):
+                ctx.count("measure:op-charge-on-flipped-boundary-leg:nonvanishing")
+                ctx.count("measure:op-charge-on-flipped-" + where + "-leg:nonvanishing")
+        E.sig = ("charged", kind, tag, at, kq, oq, bq)
     elif which == "pbc":
         q = E.draw_q("mps")
         ket = E.eval(E.tree("mps", rng.choice((0, 1)), normal_only=True, q=q))
@@ -727,27 +773,44 @@ def fam_measure(E, idx):
         E.sig = ("on_bra",)
     elif which == "env_sum":
         kind = rng.choice(("mps", "mps", "mpo"))
+        E.at_mode = at = rng.choice(("first", "last"))
+        flags = {f for f in "cr" if rng.random() < 0.5}
+        adm = R.admissible_charges(loc, N, kind)
         q = E.draw_q(kind)
-        bra = E.eval(E.tree(kind, rng.choice((0, 1)), normal_only=True, q=q))
+        bra = E.eval(E.wrap(E.leaf_node(kind, q), flags))
         terms, exp, scale, shape = [], 0.0, 0.0, []
         for _ in range(rng.randint(1, 3)):
             form = rng.choice(("ket", "op-ket", "ops-ket"))
-            ket = E.eval(E.leaf_node(kind, q))
             if form == "ket":
+                ket = E.eval(E.wrap(E.leaf_node(kind, q), flags))
                 terms.append([ket[0]])
                 exp = exp + np.vdot(bra[1], ket[1])
                 scale += ket[2]
             else:
-                os_ = [E.eval(E.leaf_node("mpo", zero)) for _ in range(1 if form == "op-ket" else rng.randint(2, 3))]
+                # operators may change the charge: the ket then starts from q - q_op
+                cand = [t for t in R.admissible_charges(loc, N, "mpo") if t != zero and G.add(loc.sym, (q, t), (1, -1)) in adm]
+                qo = rng.choice(cand) if (cand and rng.random() < 0.6) else zero
+                ket = E.eval(E.wrap(E.leaf_node(kind, G.add(loc.sym, (q, qo), (1, -1))), flags))
+                os_ = [E.eval(E.wrap(E.leaf_node("mpo", qo), flags)) for _ in range(1 if form == "op-ket" else rng.randint(2, 3))]
                 terms.append([os_[0][0] if form == "op-ket" else [o[0] for o in os_], ket[0]])
                 exp = exp + np.vdot(bra[1], sum(o[1] for o in os_) @ ket[1])
                 scale += ket[2] * sum(o[2] for o in os_)
+                if qo != zero:
+                    form += ":charged"
+                    ctx.count("measure:env-sum:charged-op" + (":reversed" if "r" in flags else ""))
+                    if abs(np.vdot(bra[1], sum(o[1] for o in os_) @ ket[1])) > 1e-9 * bra[2] * ket[2] * sum(o[2] for o in os_):
+                        for where in flipped_boundary_charge(E, os_[0][0]):
+                            ctx.count("measure:op-charge-on-flipped-boundary-leg:nonvanishing")
+                            ctx.count("measure:op-charge-on-flipped-" + where + "-leg:nonvanishing")
             shape.append(form)
         env = mps.Env(bra[0], terms if len(terms) > 1 or rng.random() < 0.5 else terms[0])
         got = env.measure(bd=(-1, N))
-        number_check(E, "Env-sum.measure", got, exp, bra[2] * scale, f"Env(bra, {shape}).measure")
+        tag = "+".join(sorted(flags)) or "plain"
+        number_check(E, "Env-sum.measure" + (":reversed" if "r" in flags else ""), got, exp, bra[2] * scale,
+                     f"Env(bra, {shape}).measure, operands {tag}, charge on the {at} leg")
         ctx.count("measure:env-sum")
-        E.sig = ("env_sum", kind, tuple(shape))
+        ctx.count("measure:env-sum:operands=" + tag)
+        E.sig = ("env_sum", kind, tuple(shape), tag, at)
     else:
         kind = rng.choice(("mps", "mpo"))
         adm = R.admissible_charges(loc, N, kind)
@@ -767,6 +830,41 @@ def _leaf_node(self, kind, q):
     return self.leaf(kind, q, src=self.rng.choice(("harness", "harness", "random", "product")))
 
 
+def _wrap(self, node, flags):
+    """Apply conj ('c') and reverse_sites ('r') in random order."""
+    fl = [f for f in "cr" if f in flags]
+    self.rng.shuffle(fl)
+    for f in fl:
+        node = self.unary({"c": "conj", "r": "reverse"}[f], node)
+    return node
+
+
+def support_charge(E, x, kind):
+    """Charge label (sum of the local labels; bras minus kets for operators) of the largest element of a dense image."""
+    v = R.as_site_major(np.asarray(x), E.loc.d, E.N)
+    if not np.any(v):
+        return None
+    lab = R.basis_charges(E.loc, E.N, kind)
+    return tuple(int(z) for z in lab[int(np.argmax(np.abs(v)))])
+
+
+def flipped_boundary_charge(E, opy):
+    """Which boundary legs of an operator carry a charge t with -t != t on a leg of *reversed* signature (first leg +1 /
+    last leg -1), as produced by reverse_sites() or conj()/H of charged MPOs -- the orientations for which the boundary
+    environments must turn the charge around."""
+    out, sym = [], E.loc.sym
+    for where, std in (("first", -1), ("last", 1)):
+        leg = opy.virtual_leg(where)
+        if len(leg.t) == 1 and int(leg.s) == -std:
+            t = tuple(int(x) for x in leg.t[0])
+            if t != G.zero(sym) and G.neg(sym, t) != t:
+                out.append(where)
+    return out
+
+
+Env.wrap = _wrap
+
+
 Env.leaf_node = _leaf_node
 
 
@@ -780,6 +878,7 @@ def fam_zipper(E, idx):
     import yastn.tn.mps as mps
     rng, ctx, loc = E.rng, E.ctx, E.loc
     E.zero_ok = False
+    E.at_mode = "first"
     if not E.allow_mpo:
         E.N = rng.randint(1, E.nmax_mpo)
         E.allow_mpo = True
@@ -862,6 +961,7 @@ def fam_compression(E, idx):
     import yastn.tn.mps as mps
     rng, ctx, loc = E.rng, E.ctx, E.loc
     E.zero_ok = False
+    E.at_mode = "first"
     if not E.allow_mpo or E.N > 5:
         E.N = rng.randint(1, min(E.nmax_mpo, 5))
         E.allow_mpo = True
@@ -989,6 +1089,7 @@ def fam_central(E, idx):
     import yastn.tn.mps as mps
     rng, ctx, loc = E.rng, E.ctx, E.loc
     E.zero_ok = False
+    E.at_mode = "first"
     kind = "mps" if (not E.allow_mpo or rng.random() < 0.6) else "mpo"
     N = E.N
     y, d, sc = E.eval(E.tree(kind, rng.choice((0, 0, 1)), normal_only=True))
@@ -1066,7 +1167,7 @@ def fam_central(E, idx):
     E.sample = {"central": {"kind": kind, "op": op, "site": n, "to": to}}
 
 
-FAMILIES = (fam_tree, fam_tree, fam_tree, fam_tree, fam_central, fam_tree, fam_measure, fam_zipper, fam_compression, fam_tree,
+FAMILIES = (fam_tree, fam_tree, fam_tree, fam_measure, fam_central, fam_tree, fam_measure, fam_zipper, fam_compression, fam_tree,
             fam_measure, fam_zipper, fam_tree)
 
 
